@@ -167,7 +167,7 @@ class World:
                 st["exc." + got[1]] += 1
                 if isinstance(obj, ParserException):
                     pass
-                elif isinstance(obj, ValueError) and type(obj) is ValueError and value_error_reason(text):
+                elif isinstance(obj, ValueError) and value_error_reason(text):
                     pass
                 else:
                     fs.append(Finding("C10", {"clause": "closed-errors", "exc": got[1]},
@@ -290,7 +290,7 @@ class ParserSim:
         return [("sessions", 2000000)]
 
     def batch_size(self, stratum):
-        return 2000 if stratum == "sessions" else 50
+        return 500 if stratum == "sessions" else 4
 
     def new_world(self, cfg, res):
         return World(cfg, res)
